@@ -474,3 +474,25 @@ func init() {
 		<-done
 	})
 }
+
+// "-pu" variants: one hand-written driver per type re-run with an extra scheduling point right after
+// every Unlock / RUnlock (Options.PostUnlock), so that what a call does AFTER leaving a critical
+// section (copying a snapshot, reading a field it no longer protects) is interleaved with the other
+// calls. Registered here because they only combine drivers and oracles defined elsewhere.
+func init() {
+	pu := vrt.Options{Delay: true, PostUnlock: true}
+	vrt.Register(&vrt.Scenario{Name: "B-txn-pu", Props: []string{"C02", "C03"}, Quick: 1, Thorough: 2,
+		Desc: "B-txn with a scheduling point after every unlock", Opts: pu, Run: bTxn, Check: bufferCheck(defaultPolicy)})
+	vrt.Register(&vrt.Scenario{Name: "B-shared-pu", Props: []string{"C01", "C02"}, Quick: 1, Thorough: 2,
+		Desc: "B-shared with a scheduling point after every unlock", Opts: pu, Run: bShared, Check: bufferCheck(defaultPolicy)})
+	vrt.Register(&vrt.Scenario{Name: "W-211-pu", Props: []string{"C14"}, Quick: 2, Thorough: 4,
+		Desc: "W-211 with a scheduling point after every unlock", Opts: pu, Run: workersScenario([]int{2, 1, 1}), Check: workersCheck})
+	vrt.Register(&vrt.Scenario{Name: "V-2x2-pu", Props: []string{"C17"}, Quick: 2, Thorough: 4,
+		Desc: "V-2x2 with a scheduling point after every unlock", Opts: pu, Run: workerScenario(2, 2), Check: workerCheck})
+	vrt.Register(&vrt.Scenario{Name: "X-same-pu", Props: []string{"C09:overlap,key-", "C10"}, Quick: 2, Thorough: 3,
+		Desc: "X-same with a scheduling point after every unlock", Opts: pu, Run: xSame, Check: exclusiveCheck})
+	vrt.Register(&vrt.Scenario{Name: "S-basic-pu", Props: []string{"C06:deliver-", "C07"}, Quick: 1, Thorough: 2,
+		Desc: "S-basic with a scheduling point after every unlock", Opts: vrt.Options{PostUnlock: true}, Run: psBasic, Check: pubsubCheck})
+	vrt.Register(&vrt.Scenario{Name: "N-cancel-pu", Props: []string{"C15"}, Quick: 2, Thorough: 3,
+		Desc: "N-cancel with a scheduling point after every unlock", Opts: vrt.Options{PostUnlock: true}, Run: nCancel(false), Check: notifierCancelCheck})
+}
